@@ -254,6 +254,18 @@ theorem residue_zero_iff (m : Bytes) (stored : BitVec 32) :
   · intro h
     rw [h]; exact C10.residue_zero m
 
+/-- the four CRC bytes determine the checksum and vice versa: two units with the same body are both accepted only
+with the same CRC field -/
+theorem accepted_crc_field_unique (m : Bytes) (x y : BitVec 32)
+    (hx : computeCRC32 (m ++ be32 x) = 0#32) (hy : computeCRC32 (m ++ be32 y) = 0#32) : x = y := by
+  rw [(residue_zero_iff m x).mp hx, (residue_zero_iff m y).mp hy]
+
+/-- different messages of the same length ≤ 4 never share a checksum (the window theorem with nothing around it) -/
+theorem short_messages_distinct (w w' : Bytes) (hl : w.length = w'.length) (h4 : w.length ≤ 4)
+    (hw : ∀ b ∈ w, b < 256) (hw' : ∀ b ∈ w', b < 256) (hne : w ≠ w') : computeCRC32 w ≠ computeCRC32 w' := by
+  have := window4_detected [] [] w w' hl h4 hw hw' hne
+  simpa using this
+
 -- the premises are satisfiable and the conclusion is not trivial: a valid 2+4-byte unit, a different prefix
 example : computeCRC32 ([0x12, 0x34] ++ be32 (computeCRC32 [0x12, 0x34])) = 0#32 ∧
     computeCRC32 [0x12, 0x35, 0x00] ≠ computeCRC32 [0x12, 0x34] := by decide +kernel
